@@ -34,7 +34,8 @@ type Anchors struct {
 	TxnCore     *ssa.Function   // the function that calls (*sql.DB).Begin (== TxnRunner unless the runner was split into helpers)
 	TxnChain    []*ssa.Function // TxnRunner ... TxnCore
 	Allocator   *ssa.Function   // direct caller of TxnRunner that hands a new CAS to a callback parameter
-	AllocClos   *ssa.Function   // the closure Allocator passes to TxnRunner
+	AllocClos   *ssa.Function   // the function that invokes the write callback with the new CAS: the closure Allocator passes to TxnRunner, or the method that closure delegates to
+	AllocOuter  *ssa.Function   // the closure Allocator passes to TxnRunner (== AllocClos unless it delegates)
 	ClockNow    *ssa.Function   // source of the CAS inside AllocClos
 	ClockGlobal *ssa.Global     // package-level variable the clock is loaded from
 	ClockType   *types.Named    // its struct type
@@ -356,6 +357,17 @@ func (m *Model) resolveAnchors() error {
 		}
 		res := fn.Signature.Results()
 		if res.Len() == 1 && isPtrToNamed(res.At(0).Type(), sgbucketPath, "FeedEvent") {
+			// a function from FeedEvent to FeedEvent adapts an event, it does not build one
+			adapts := false
+			for i := 0; i < fn.Signature.Params().Len(); i++ {
+				t := fn.Signature.Params().At(i).Type()
+				if isPtrToNamed(t, sgbucketPath, "FeedEvent") || isNamed(t, sgbucketPath, "FeedEvent") {
+					adapts = true
+				}
+			}
+			if adapts {
+				continue
+			}
 			if p, ok := fn.Signature.Recv().Type().(*types.Pointer); ok {
 				if n, ok := p.Elem().(*types.Named); ok && n.Obj().Pkg() == m.SSA.Pkg {
 					convs = append(convs, fn)
@@ -450,6 +462,38 @@ func (m *Model) resolveAnchors() error {
 				a.problem("Allocator", "no direct caller of the txn runner takes a write callback returning the event type")
 			} else {
 				a.problem("Allocator", "ambiguous CAS allocator wrappers: %s", names(allocs))
+			}
+		}
+	}
+	a.AllocOuter = a.AllocClos
+	if a.AllocClos != nil {
+		// the closure may delegate its body to a named function that is handed the callback
+		invokesCb := func(f *ssa.Function) bool {
+			found := false
+			m.eachCall(f, func(cc ssa.CallInstruction) {
+				if cc.Common().StaticCallee() != nil || cc.Common().IsInvoke() {
+					return
+				}
+				if _, isB := cc.Common().Value.(*ssa.Builtin); isB {
+					return
+				}
+				if sig, ok := cc.Common().Value.Type().Underlying().(*types.Signature); ok && sig.Results().Len() > 0 {
+					if pt, ok := sig.Results().At(0).Type().(*types.Pointer); ok && pt.Elem() == a.EventType {
+						found = true
+					}
+				}
+			})
+			return found
+		}
+		if !invokesCb(a.AllocClos) {
+			var bodies []*ssa.Function
+			m.eachCall(a.AllocClos, func(cc ssa.CallInstruction) {
+				if f := cc.Common().StaticCallee(); f != nil && m.inPkg(f) && invokesCb(f) {
+					bodies = append(bodies, f)
+				}
+			})
+			if len(bodies) == 1 {
+				a.AllocClos = bodies[0]
 			}
 		}
 	}
